@@ -124,7 +124,7 @@ def build_world(scn: dict, loop: Optional[asyncio.AbstractEventLoop], transport:
     kw: Dict[str, Any] = dict(
         debug=bool(cfg.get("debug", False)),
         cache=bool(cfg.get("cache", True)),
-        max_loop_iterations=cfg.get("max_loop_iterations", 100),
+        max_loop_iterations=100 if cfg.get("mli_late") else cfg.get("max_loop_iterations", 100),
         skip_greetings=True,
     )
     if "time_resolution" in cfg:
@@ -214,6 +214,9 @@ def build_world(scn: dict, loop: Optional[asyncio.AbstractEventLoop], transport:
     for s in sims:
         if s.get("initial_event") is not None:
             world.set_initial_event(s["sid"], s["initial_event"])
+    if cfg.get("mli_late"):
+        # the documented public attribute, assigned after the simulators have been started
+        world.max_loop_iterations = cfg.get("max_loop_iterations", 100)
     return world, ents, results
 
 
